@@ -1,6 +1,8 @@
 (** C02 - MultiProgress shows every member once, in logical order, below the log.
     Only statements; every proof is [exact <lemma from IndProofs>].  What is and is not covered:
-    docs/C02.md (the screen clause C02_screen is NOT proved here). *)
+    docs/C02.md.  Sections of this file: order refinement (all histories, both alignments, faults);
+    atomic brackets (generated table); screen level (C02_screen: Top alignment, no faults,
+    FitsAll); latest drawn state; concurrency (C02_interleaving, C02_insert_sections_partial). *)
 From IndModel Require Import MultiSpec.
 From IndProofs Require Import MultiProofs MultiFrame.
 From Coq Require Import List NArith.
@@ -87,16 +89,16 @@ Theorem C02_frame : forall (W H : N) (fails : N -> bool) (m : mstate) (force : b
 Proof. exact ms_draw_frame. Qed.
 Print Assumptions C02_frame.
 
-(** (4) partial: GIVEN that each public call is one atomic [step] (lock brackets, docs/C02.md),
-    a concurrent execution is the fold of [step] over an interleaving [l] of the per-thread call
-    lists [ts], and (1)-(2) hold along every such interleaving *)
-Theorem C02_interleaving_partial : forall (W H : N) (fails : N -> bool)
+(** (3) partial: the ORDER refinement (1) along every interleaving [l] of per-thread call lists
+    [ts].  This is C02_order applied to [l]; the [Merge] premise only contributes the two list
+    facts.  The concurrency clause proper (what the frames show) is [C02_interleaving] below. *)
+Theorem C02_order_along_interleavings_partial : forall (W H : N) (fails : N -> bool)
     (ts : list (list (N * op))) (l : list (N * op)) (s : sys),
   Merge ts l -> init_ok s -> hist_ok W H fails s l ->
   SimRun W H fails s (mkas [] []) l
   /\ length l = length (concat ts) /\ (forall x, In x l <-> In x (concat ts)).
 Proof. exact interleaving_full. Qed.
-Print Assumptions C02_interleaving_partial.
+Print Assumptions C02_order_along_interleavings_partial.
 
 (* ------------------------------------------------------------------ non-vacuity *)
 Definition ex_bar (c : N) : bar := new_bar (Some 10) FAndLeave [PLit [c]; PPos] THidden 0.
@@ -137,13 +139,14 @@ Proof.
 Qed.
 
 (** ------------------------------------------------------------------------------------------
-    The premise of [C02_interleaving_partial] ("every public call is one atomic step") tied to the
+    The premise of [C02_interleaving] ("every public call is one atomic step", [AtomicExec]) tied to the
     source: in the lock-footprint table that tools/locks_extract.py regenerates from /repo/src on
     every run (gen/LockFootprints.v), every public method of ProgressBar / MultiProgress is a
     SINGLE outermost critical section over the bar mutex / the MultiState lock - one bracket from
     the mutation through the paint - except the calls listed in [Brackets.allowed_sections] with
-    the number of sections they have (adding a bar = two steps, dropping the last handle, the
-    ticker loop).  A change that splits a bracket (e.g. releasing the bar mutex in the middle of
+    the number of sections they have (adding a bar = two or three sections: C02_insert_sections_partial
+    at the end of this file; dropping the last handle = the two model calls finish_using_style; drop;
+    the ticker loop).  A change that splits a bracket (e.g. releasing the bar mutex in the middle of
     `remove`) breaks this obligation. *)
 From IndModel Require Import Locks Brackets.
 From IndGen Require Import LockFootprints.
@@ -445,3 +448,232 @@ Example C02_silent_change_example :
      = [(true, [[65;58;49;48;47;49;48;48;32]; [66;58;48;47;49;48;48;32]])]
   /\ option_map le_sync (lg_slot (snd (lrun 40 20 ml_nf ml_s0 0 lg_empty h)) 0) = Some false.
 Proof. vm_compute. repeat split. Qed.
+
+(** ------------------------------------------------------------------------------------------
+    Clause 3 - concurrent updates (model/MultiInterleave.v, proofs/MultiInterleaveProofs.v).
+
+    ALL the concurrency content is in the hypothesis [AtomicExec W H fails s0 ts l]: the atomic-step
+    assumption - a concurrent execution of the per-thread call lists [ts] IS the sequential run of
+    [Sys.step] over an interleaving [l] of [ts] in which every call is possible when it is made
+    (the lock brackets reduce concurrency to sequential histories; which calls are one bracket is
+    checked on the generated footprint table by C02_atomic_brackets_generated; add/insert*, which
+    are not, by C02_insert_sections_partial below).  Given that, the theorem is a corollary of the
+    sequential theorems C02_frame_shows_latest / C02_latest_monotone applied to the merged list,
+    plus the fact that a draw step of a finished bar is forced.  "Call number k of l" counts from 0;
+    [DrawAt l k m f ex] = call k makes a MultiState::draw on MultiState [m] (painted iff
+    [ms_attempt], then exactly [ms_frame m ex] is handed to draw_to_term: C02_frame);
+    [ghost_after l k] = the latest-drawn-state ghost right after call k; [state_after l j] = the
+    system state right after call j.  For every terminal size, fault oracle, limiter state:
+
+    (0) [l] contains every thread's calls in program order and nothing else.
+    (3a) every frame composed by call k is text ++ (for each slot of the ordering) [frame_of] the
+         ghost state of the slot, and that state is the logic state the owning bar really had
+         right after call [le_step e] <= k of the merged execution (a slot without entry - the bar
+         has not drawn since it was added - shows nothing).
+    (3b) never older: if a frame of call k1 shows bar b in its state after call j1 and a frame of a
+         later (or the same) call k2 shows b in its state after call j2, then j1 <= j2.
+    (3c) the last frame shows the final states: if call k is a draw step of member b in a FINISHED
+         state [st] (finish*, abandon*, finish_using_style, drop of an unfinished bar, and any
+         later call that draws a finished bar) and no later call of [l] changes b's logic state,
+         then [st] is b's final state, call k makes ONE MultiState::draw, forced and PAINTED, whose
+         frame shows [frame_of st] in b's slot, and every frame of call k or of a later call that
+         shows b at all (b may be removed, or reaped once it is the first bar) shows that final
+         state. *)
+From IndModel Require Import MultiInterleave.
+From IndProofs Require Import MultiInterleaveProofs MultiSectionsProofs.
+
+Theorem C02_interleaving : forall (W H : N) (fails : N -> bool)
+    (ts : list (list (N * op))) (l : list (N * op)) (s0 : sys),
+  init_ok s0 -> mp_visible s0 -> AtomicExec W H fails s0 ts l ->
+  (Forall (fun t => Subseq t l) ts /\ length l = length (concat ts))
+  /\ (forall k m f ex, DrawAt W H fails s0 l k m f ex ->
+        let g := ghost_after W H fails s0 l k in
+        ms_frame m ex = (extra_lines ex ++ ms_orphans m) ++ concat (map (shown g) (ms_order m))
+        /\ forall i e, In i (ms_order m) -> lg_slot g i = Some e ->
+             b_target (get_bar (state_before W H fails s0 l k) (le_bar e)) = TMulti i
+             /\ (le_step e <= k)%nat
+             /\ logic (le_state e) = logic (get_bar (state_after W H fails s0 l (le_step e)) (le_bar e)))
+  /\ (forall k1 k2 m1 f1 ex1 m2 f2 ex2 i1 i2 e1 e2, (k1 <= k2)%nat ->
+        DrawAt W H fails s0 l k1 m1 f1 ex1 -> DrawAt W H fails s0 l k2 m2 f2 ex2 ->
+        In i1 (ms_order m1) -> lg_slot (ghost_after W H fails s0 l k1) i1 = Some e1 ->
+        In i2 (ms_order m2) -> lg_slot (ghost_after W H fails s0 l k2) i2 = Some e2 ->
+        le_bar e1 = le_bar e2 -> (le_step e1 <= le_step e2)%nat)
+  /\ (forall k now o b st i, nth_error l k = Some (now, o) ->
+        let s := state_before W H fails s0 l k in
+        op_draw s now o = Some (b, st) -> finished st = true -> b_target (get_bar s b) = TMulti i ->
+        (forall j, (k < j < length l)%nat ->
+           logic (get_bar (state_after W H fails s0 l j) b) = logic (get_bar (state_after W H fails s0 l k) b)) ->
+        logic (get_bar (run W H fails s0 l) b) = logic st
+        /\ (exists m, step_draws W H fails s now o = [(m, true, None)]
+                      /\ PaintedAt W H fails s0 l k m true None
+                      /\ In i (ms_order m) /\ member_lines (ms_members m) i = frame_of st)
+        /\ (forall k' m f ex i' e, (k <= k')%nat -> DrawAt W H fails s0 l k' m f ex ->
+              In i' (ms_order m) -> lg_slot (ghost_after W H fails s0 l k') i' = Some e -> le_bar e = b ->
+              logic (le_state e) = logic (get_bar (run W H fails s0 l) b))).
+Proof. exact interleaving. Qed.
+Print Assumptions C02_interleaving.
+
+(* ------------------------------------------------------------------ non-vacuity (concurrency) *)
+(** two updater threads (A: 3 inc + finish, B: set_message + finish_with_message) and the main
+    thread that added the bars, merged with the threads' calls alternating *)
+Definition il_bar (c : N) : bar := new_bar (Some 3) FAndLeave [PLit [c; 58]; PPos; PLit [32]; PMsg] THidden 0.
+Definition il_s0 : sys := mksys [il_bar 65; il_bar 66] (new_ms (TTerm (new_ttarget None 0))) 0.
+Definition il_main : list (N * op) := [(0, OInsert BEnd 0); (0, OInsert BEnd 1)].
+Definition il_tA : list (N * op) := [(10, OInc 0 1); (2000010, OInc 0 1); (4000010, OInc 0 1); (6000010, OFinish 0 FAndLeave)].
+Definition il_tB : list (N * op) := [(1000010, OSetMsg 1 [120]); (5000010, OFinish 1 (FWithMessage [111;107]))].
+Definition il_l : list (N * op) :=
+  il_main ++ [(10, OInc 0 1); (1000010, OSetMsg 1 [120]); (2000010, OInc 0 1); (4000010, OInc 0 1);
+              (5000010, OFinish 1 (FWithMessage [111;107])); (6000010, OFinish 0 FAndLeave)].
+
+Example C02_interleaving_hypotheses_satisfiable :
+  init_ok il_s0 /\ mp_visible il_s0 /\ AtomicExec 20 10 (fun _ => false) il_s0 [il_main; il_tA; il_tB] il_l.
+Proof.
+  split; [|split; [|split]].
+  - repeat split. intros b. unfold is_member, get_bar, nthN. destruct (N.to_nat b) as [|[|[|n]]]; reflexivity.
+  - eexists. reflexivity.
+  - unfold il_l, il_main, il_tA, il_tB. cbn [app].
+    apply (Merge_cons [] _ [(0, OInsert BEnd 1)] [il_tA; il_tB]).
+    apply (Merge_cons [] _ [] [il_tA; il_tB]).
+    apply (Merge_cons [[]] _ (tl il_tA) [il_tB]).
+    apply (Merge_cons [[]; tl il_tA] _ (tl il_tB) []).
+    apply (Merge_cons [[]] _ (tl (tl il_tA)) [tl il_tB]).
+    apply (Merge_cons [[]] _ (tl (tl (tl il_tA))) [tl il_tB]).
+    apply (Merge_cons [[]; tl (tl (tl il_tA))] _ [] []).
+    apply (Merge_cons [[]] _ [] [[]]).
+    apply Merge_nil. repeat constructor.
+  - vm_compute. repeat split.
+Qed.
+
+(** call 6 (B.finish_with_message "ok") is a finishing draw step, nothing changes B afterwards: its
+    frame - painted - shows A at its second inc (the state A really had after call 5) and B's
+    final state; the last frame (call 7, A.finish) still shows B's final state *)
+Example C02_interleaving_example :
+  let nf := fun _ : N => false in
+  nth_error il_l 6 = Some (5000010, OFinish 1 (FWithMessage [111;107]))
+  /\ map (fun '(m, f, ex) => (ms_attempt 20 m f ex 5000010, map lt (ms_frame m ex)))
+         (step_draws 20 10 nf (state_before 20 10 nf il_s0 il_l 6) 5000010 (OFinish 1 (FWithMessage [111;107])))
+     = [(true, [[65;58;51;32]; [66;58;51;32;111;107]])]
+  /\ map (fun i => option_map (fun e => (le_bar e, le_step e)) (lg_slot (ghost_after 20 10 nf il_s0 il_l 6) i)) [0; 1]
+     = [Some (0, 5%nat); Some (1, 6%nat)]
+  /\ map (fun '(m, f, ex) => map lt (ms_frame m ex))
+         (step_draws 20 10 nf (state_before 20 10 nf il_s0 il_l 7) 6000010 (OFinish 0 FAndLeave))
+     = [[[65;58;51;32]; [66;58;51;32;111;107]]].
+Proof. vm_compute. repeat split. Qed.
+
+(** ------------------------------------------------------------------------------------------
+    add / insert* are NOT one critical section (C02_atomic_brackets_generated allows them 2,
+    insert_before/after 3).  model/MultiInterleave.v (part 2) splits them into their sections:
+    [MRead] (reference index read under the reference bar's lock), [MAlloc] (slot allocation under
+    the MultiState lock: an EMPTY member enters the ordering - it renders nothing), [MAttach]
+    (set_draw_target under the new bar's lock); [sec_run] runs a history of sections in which
+    other threads' sections fall between them.  `_partial`: proved for the schedules [sched_ok]:
+      (S1) between the allocation and the attach section of add/insert*(b) no other section goes
+           through a handle of b;
+      (S2) the slot insert_before/after read for the reference bar r is still r's slot when the
+           allocation section uses it (no remove(r) in between);
+      (S3) the bar added is not a member (as in op_ok).
+    For these, the section history reaches the same system state and emits the same TermLike
+    calls as the atomic history [atomize h] - every add/insert* as ONE step at its allocation
+    section - so every theorem of this file applies to it ([retargets (pend_run ..)] = the bars
+    still between allocation and attach at the end: none, for a complete history).
+    Outside (S2) the real code misplaces the bar or panics with the MultiState lock held: finding
+    candidate, C02_insert_sections_stale_index_refuted.  Outside (S1): the other thread's call
+    reaches the bar's OLD draw target (hidden: nothing happens; the update is shown at the bar's
+    first draw after the attach); not covered by a theorem. *)
+Theorem C02_insert_sections_partial : forall (W H : N) (fails : N -> bool) (h : list (N * mstep))
+    (s : sys) (lc : locals),
+  sched_ok W H fails s lc [] h ->
+  let r := sec_run W H fails (s, lc) h in
+  run_out W H fails s (atomize h) = (retargets (pend_run W H fails s lc [] h) (fst (fst r)), snd r).
+Proof. exact sections_atomic. Qed.
+Print Assumptions C02_insert_sections_partial.
+
+(** an interleaving of the threads' SECTION lists is, after [atomize], an interleaving of the
+    threads' CALL lists: the [l] of C02_interleaving *)
+Theorem C02_insert_sections_merge : forall (ts : list (list (N * N * op))) (h : list (N * mstep)),
+  Merge (map thread_sections ts) h -> Merge (map thread_calls ts) (atomize h).
+Proof. exact sections_merge. Qed.
+Print Assumptions C02_insert_sections_merge.
+
+(** the building block: a call that does not go through a handle of bar b neither reads nor
+    changes b's draw target *)
+Theorem C02_step_ignores_other_targets : forall (W H : N) (fails : N -> bool) (s : sys) (b : N) (t : target)
+    (now : N) (o : op),
+  mentions o b = false ->
+  step W H fails (retarget s b t) now o
+  = (retarget (step_sys W H fails s now o) b t, step_out W H fails s now o, snd (step W H fails s now o)).
+Proof. exact step_retarget. Qed.
+Print Assumptions C02_step_ignores_other_targets.
+
+(* ------------------------------------------------------------------ non-vacuity (sections) *)
+(** bars A B already members; thread 1: insert_after(&A, X) (call 7), thread 2: insert(1, C)
+    (call 8) and ticks of A and B - thread 2's sections fall between the three sections of call 7,
+    and its allocation sees the still empty slot of X at position 1 *)
+Definition sx_bar (c : N) : bar := new_bar (Some 9) FAndLeave [PLit [c]; PPos] THidden 0.
+Definition sx_s0 : sys :=
+  mksys [sx_bar 65; sx_bar 66; sx_bar 67; sx_bar 88] (new_ms (TTerm (new_ttarget None 0))) 0.
+Definition sx_h : list (N * mstep) :=
+  [(0, MCall (OInsert BEnd 0)); (0, MCall (OInsert BEnd 1)); (1000000, MCall (OTick 0)); (1000001, MCall (OTick 1));
+   (2000000, MRead 7 0); (2000001, MCall (OTick 1)); (2000002, MAlloc 7 (BAfter 0) 3);
+   (3000000, MAlloc 8 (BIndex 1) 2); (3000001, MCall (OTick 0)); (3000002, MAttach 7 3);
+   (3000003, MAttach 8 2); (4000000, MCall (OTick 2)); (4000001, MCall (OTick 3))].
+
+Example C02_insert_sections_nonvacuous :
+  let nf := fun _ : N => false in
+  sched_ok 20 10 nf sx_s0 (fun _ => None) [] sx_h
+  /\ pend_run 20 10 nf sx_s0 (fun _ => None) [] sx_h = []
+  /\ atomize sx_h = [(0, OInsert BEnd 0); (0, OInsert BEnd 1); (1000000, OTick 0); (1000001, OTick 1);
+                     (2000001, OTick 1); (2000002, OInsert (BAfter 0) 3); (3000000, OInsert (BIndex 1) 2);
+                     (3000001, OTick 0); (4000000, OTick 2); (4000001, OTick 3)]
+  /\ hist_ok 20 10 nf sx_s0 (atomize sx_h)
+  /\ map (slot_of (fst (fst (sec_run 20 10 nf (sx_s0, fun _ => None) sx_h)))) [0; 2; 3; 1]
+     = ms_order (s_mp (fst (fst (sec_run 20 10 nf (sx_s0, fun _ => None) sx_h)))).
+Proof.
+  cbn zeta. split; [|split; [|split; [|split]]]; try (vm_compute; repeat split; fail).
+  vm_compute.
+  repeat match goal with
+         | |- _ /\ _ => split
+         | |- True => exact I
+         | |- forall _, _ => intro
+         | H : False |- _ => destruct H
+         | H : _ \/ _ |- _ => destruct H
+         | H : _ = ?p |- _ => subst p
+         | |- exists _, _ => eexists
+         | |- _ \/ _ => first [left; reflexivity | right]
+         | |- _ = _ => reflexivity
+         end.
+Qed.
+
+(** Outside (S2) - the stale index: thread 1 reads the slot of A for insert_after(&A, X); thread 2
+    removes A and adds Y, which recycles that slot; thread 1's allocation then places X after Y.
+    The section run ends with the list Y, X although X was inserted "after A" and A is gone; the
+    atomic history (where the call panics: A is not a member) ends with Y alone.  [sched_ok] fails
+    at the allocation section.  Reproduced on the implementation by a two-thread race
+    (harness/src/bin/c02.rs `stale_index_race`, docs/patches/C02-insert-ref-index-race.demo.rs);
+    there the variant without add(Y) panics inside MultiState::insert, i.e. with the MultiState
+    lock held, and poisons it. *)
+Definition sy_s0 : sys :=
+  mksys [sx_bar 65; sx_bar 88; sx_bar 89] (new_ms (TTerm (new_ttarget None 0))) 0.
+Definition sy_h : list (N * mstep) :=
+  [(0, MCall (OInsert BEnd 0)); (1000000, MCall (OTick 0));
+   (2000000, MRead 7 0); (2000001, MCall (ORemove 0)); (2000002, MCall (OInsert BEnd 2));
+   (2000003, MAlloc 7 (BAfter 0) 1); (2000004, MAttach 7 1); (3000000, MCall (OTick 1)); (3000001, MCall (OTick 2))].
+
+Theorem C02_insert_sections_stale_index_refuted :
+  let nf := fun _ : N => false in
+  exists (s0 : sys) (h : list (N * mstep)),
+    let s1 := fst (fst (sec_run 20 10 nf (s0, fun _ => None) h)) in
+    let s2 := fst (run_out 20 10 nf s0 (atomize h)) in
+    (* section run: the ordering is [slot of Y; slot of X], both bars are members and painted *)
+    map (slot_of s1) [2; 1] = ms_order (s_mp s1) /\ is_member s1 1 = true
+    /\ snd (sec_run 20 10 nf (s0, fun _ => None) h) <> snd (run_out 20 10 nf s0 (atomize h))
+    (* atomic run of the same calls: X never becomes a member *)
+    /\ map (slot_of s2) [2] = ms_order (s_mp s2) /\ is_member s2 1 = false
+    /\ ~ sched_ok 20 10 nf s0 (fun _ => None) [] h.
+Proof.
+  cbn zeta. exists sy_s0, sy_h.
+  split; [vm_compute; reflexivity|]. split; [vm_compute; reflexivity|].
+  split; [vm_compute; discriminate|]. split; [vm_compute; reflexivity|]. split; [vm_compute; reflexivity|].
+  vm_compute. intros (_ & _ & _ & _ & _ & (_ & _ & _ & E) & _). discriminate E.
+Qed.
+Print Assumptions C02_insert_sections_stale_index_refuted.
